@@ -1,7 +1,10 @@
 """Runs every confirmed seeded change (seeded/<id>/patch.diff) against the quick tier of its own property's check and,
 when that misses, against all other claimed checks.  Writes seeded/results.json:  {id: {property: caught|caught-no-input|missed}}.
-Applies the patches to /repo one at a time and undoes each; /repo must be clean and nothing else may use it meanwhile."""
+Applies the patches to the checkout under verification ($CB_REPO, default /repo) one at a time and undoes each; that checkout
+must be clean and nothing else may use it meanwhile.  Several instances may run in parallel, each from its own worktree of
+/verif with its own $CB_REPO worktree; pass the ids to work on as arguments."""
 import glob, json, os, subprocess, sys
+REPO = os.environ.get('CB_REPO', '/repo')
 root = os.path.dirname(os.path.dirname(os.path.abspath(__file__)))
 claimed = [c['property_id'] for c in json.load(open(f'{root}/MANIFEST.json'))['checks']]
 only = sys.argv[1:]
@@ -15,14 +18,14 @@ def run(pid):
         return 'caught' if any('no-failing-input-found' not in l for l in v) else 'caught-no-input'
     return 'missed' if p.returncode == 0 else f'error-rc{p.returncode}'
 
-assert subprocess.run(['git', '-C', '/repo', 'status', '--porcelain'], capture_output=True, text=True).stdout.strip() == '', '/repo is not clean'
+assert subprocess.run(['git', '-C', REPO, 'status', '--porcelain'], capture_output=True, text=True).stdout.strip() == '', REPO + ' is not clean'
 for d in sorted(glob.glob(f'{root}/seeded/*/')):
     sid = os.path.basename(d.rstrip('/'))
     if only and sid not in only and sid[:3] not in only:
         continue
     meta = json.load(open(d + 'meta.json'))
     own = meta.get('property', sid[:3])
-    if subprocess.run(['git', '-C', '/repo', 'apply', d + 'patch.diff']).returncode != 0:
+    if subprocess.run(['git', '-C', REPO, 'apply', d + 'patch.diff']).returncode != 0:
         res[sid] = {own: 'patch-does-not-apply'}
         continue
     try:
@@ -37,6 +40,6 @@ for d in sorted(glob.glob(f'{root}/seeded/*/')):
                         r[pid] = x
         res[sid] = r
     finally:
-        subprocess.run(['git', '-C', '/repo', 'checkout', '--', '.'])
+        subprocess.run(['git', '-C', REPO, 'checkout', '--', '.'])
     print(sid, res[sid], flush=True)
     json.dump(res, open(res_file, 'w'), indent=1, sort_keys=True)
